@@ -440,3 +440,36 @@ def finite_diff(vc):
     st["F_t"] = F(as_array(t))
     vc.loop("HamiltonianChain.finite_diff", "for#0", FdLoop(vc, st))
     vc.call(chain, "finite_diff", t)
+
+
+@contract("C07", "matrix_mass", native=False)
+def matrix_mass(vc):
+    d = vc.int("d", lo=2)
+    inv = vc.matrix("inv_mass", d, d)
+    vc.assume_forall((d, d), lambda i, j: inv[i, j] == inv[j, i])
+    M = vc.new(MASS, "MatrixMass", inv, d)
+    r = vc.vector("r", d)
+    s = vc.vector("signs", d)
+    vc.assume_forall(d, lambda i: S.Or(s[i] == 1, s[i] == -1))
+    v = vc.call(M, "get_velocity", r)
+    vc.ensures_forall("velocity_is_inverse_mass_times_momentum", d, lambda i: v[i] == vc.sum(d, lambda k: inv[i, k] * r[k]))
+    vs = vc.call(M, "get_velocity", s * r)
+    # needed by the bounded integrator (the wall flips single momentum components): FAILS for a full matrix
+    vc.ensures_forall("velocity_commutes_with_component_sign_flips", d, lambda i: vs[i] == s[i] * v[i])
+
+
+@bounded("C07", "matrix_mass_bounds_native", native_runs=6)
+def matrix_mass_bounds_native(vc):
+    seed = vc.int("seed", lo=0, hi=10 ** 6)
+    rng = np.random.default_rng(seed)
+    ch, post, bounds = _chain(vc, rng, 2, True, "matrix", 1.0)
+    ch.ES.epsilon = 0.3 * float(np.min(bounds[1] - bounds[0]))
+    t0 = ch.theta[-1].copy()
+    r0 = ch.mass.sample_momentum(ch.rng)
+    worst = 0.0
+    for n in (5, 11, 23):
+        t1, r1 = ch.run_leapfrog(t0.copy(), r0.copy(), n)
+        t2, r2 = ch.run_leapfrog(t1.copy(), -r1.copy(), n)
+        worst = max(worst, float(np.abs(t2 - t0).max()), float(np.abs(r2 + r0).max()))
+    vc.inputs["worst_return_error"] = worst
+    vc.ensures("reversible_with_matrix_mass_and_bounds", worst < 1e-5)
